@@ -449,7 +449,7 @@ var CommitPairs = []CommitPair{
 }
 
 // RecommitClasses: alterations of one element (or the shape) of the opening.
-var RecommitClasses = []string{"zero", "one", "plus-one", "q", "2^255", "2^256", "2^63", "2^64-1", "double-width", "drop-last", "append-one", "keep-two"}
+var RecommitClasses = []string{"zero", "one", "plus-one", "q", "2^255", "2^256", "2^63", "2^64-1", "double-width", "drop-last", "append-one", "keep-two", "keep-one"}
 
 func pairFor(scn, revealType string) *CommitPair {
 	for i := range CommitPairs {
@@ -479,6 +479,8 @@ func alterOpening(D []*big.Int, idx int, class string, ctx *mutCtx) ([]*big.Int,
 			return nil, false
 		}
 		return out[:2], true
+	case "keep-one": // only the commitment randomness: the opening "opens to nothing"
+		return out[:1], true
 	}
 	if idx >= len(out) {
 		return nil, false
@@ -1178,7 +1180,7 @@ func EnumerateCraftedCases(scName string, deviator int) []Case {
 		}
 		for _, idx := range []int{1, 2, 1000000} {
 			for _, cl := range RecommitClasses {
-				if (cl == "drop-last" || cl == "append-one" || cl == "keep-two") && idx != 1 {
+				if (cl == "drop-last" || cl == "append-one" || cl == "keep-two" || cl == "keep-one") && idx != 1 {
 					continue
 				}
 				cases = append(cases, Case{Scenario: scName, Deviator: deviator, Dev: Dev{MsgType: cp.RevealType, Field: cp.RevealField, Index: idx, Op: "recommit:" + cl}})
